@@ -36,11 +36,11 @@ def lattice(rng, N, nmesh, box, clustered=True):
     return (idx * (h / 8)).astype(np.float32), idx
 
 
-def run_power(ps, pos, box, conf, nthread=None, pos2=None):
+def run_power(ps, pos, box, conf, nthread=None, pos2=None, w=None, w2=None):
     kw = dict(conf['kw'])
     with warnings.catch_warnings():
         warnings.simplefilter('ignore')
-        return ps.calc_power(pos.copy(), box, nmesh=conf['nmesh'], paste=conf['paste'], compensated=conf['compensated'], interlaced=conf['interlaced'], nthread=nthread or conf['nthread'], dtype=conf['dtype'], pos2=None if pos2 is None else pos2.copy(), **kw)
+        return ps.calc_power(pos.copy(), box, nmesh=conf['nmesh'], paste=conf['paste'], compensated=conf['compensated'], interlaced=conf['interlaced'], nthread=nthread or conf['nthread'], dtype=conf['dtype'], pos2=None if pos2 is None else pos2.copy(), w=None if w is None else w.copy(), w2=None if w2 is None else w2.copy(), **kw)
 
 
 def compare_tables(run, A, B, desc, what, floats=True):
@@ -100,6 +100,8 @@ def check(run):
         elif nmesh in (12, 24, 48):
             box = float(nmesh) * [0.5, 4.0][k % 2]
         N = int(rng.choice([300, 3000, 20000])) if not run.quick else int(rng.choice([300, 3000]))
+        if k % 20 == 7 or (not run.quick and k % 20 == 13):
+            N = [66000, 132000, 1050000][(k // 20) % (2 if run.quick else 3)]  # particle counts beyond round internal thresholds
         pos, idx = lattice(rng, N, nmesh, box, clustered=bool(k % 3))
         if conf['kw'].get('kbins') == 'array':
             kN = np.pi * nmesh / box
@@ -107,7 +109,9 @@ def check(run):
         desc = dict(nmesh=nmesh, box=box, N=N, paste=conf['paste'], compensated=conf['compensated'], interlaced=conf['interlaced'], binning=conf['binning'], nthread=conf['nthread'], dtype=np.dtype(conf['dtype']).str)
         run.progress(desc)
         run.ev()
-        R0 = run_power(ps, pos, box, conf)
+        W = (rng.integers(1, 5, N).astype(np.float32) if (k % 3 == 1 or N > 60000) else None)  # integer weights keep the painting exact on the lattice
+        desc['weighted'] = W is not None
+        R0 = run_power(ps, pos, box, conf, w=W)
         populated = int((np.asarray(R0['N_mode']).reshape(len(R0), -1).sum(axis=1) > 0).sum())
         if k < 3:
             run.sample(dict(desc, first_positions=pos[:2].tolist(), power_head=np.asarray(R0['power']).ravel()[:3].tolist(), N_mode_head=np.asarray(R0['N_mode']).ravel()[:3].tolist()))
@@ -122,7 +126,7 @@ def check(run):
         # 1. permutation
         perm = rng.permutation(N)
         run.ev()
-        if compare_tables(run, R0, run_power(ps, pos[perm], box, conf), desc, 'permutation'):
+        if compare_tables(run, R0, run_power(ps, pos[perm], box, conf, w=None if W is None else W[perm]), desc, 'permutation'):
             continue
         nt('permutation')
         # 2. whole-cell translations with periodic wrap, one per axis and a combined one
@@ -134,7 +138,7 @@ def check(run):
             idx2 = (idx + np.array(sh) * 8) % (nmesh * 8)
             pos2 = (idx2 * (box / nmesh / 8)).astype(np.float32)
             run.ev()
-            if compare_tables(run, R0, run_power(ps, pos2, box, conf), dict(desc, shift_cells=list(sh)), 'translation'):
+            if compare_tables(run, R0, run_power(ps, pos2, box, conf, w=W), dict(desc, shift_cells=list(sh)), 'translation'):
                 bad = True
                 break
             nt(('translation', sh))
@@ -145,7 +149,7 @@ def check(run):
             pos3 = (pos.astype(np.float64) + np.array([box, 0, -box])).astype(np.float32)
             if np.array_equal((pos3.astype(np.float64) - np.array([box, 0, -box])).astype(np.float32), pos):
                 run.ev()
-                if compare_tables(run, R0, run_power(ps, pos3, box, conf), dict(desc, shift='(+box,0,-box) unwrapped'), 'translation'):
+                if compare_tables(run, R0, run_power(ps, pos3, box, conf, w=W), dict(desc, shift='(+box,0,-box) unwrapped'), 'translation'):
                     continue
                 nt('translation-unwrapped')
         # 3. thread counts
@@ -153,7 +157,7 @@ def check(run):
             if ntc == conf['nthread']:
                 continue
             run.ev()
-            if compare_tables(run, R0, run_power(ps, pos, box, conf, nthread=ntc), dict(desc, other_nthread=ntc), 'nthread'):
+            if compare_tables(run, R0, run_power(ps, pos, box, conf, nthread=ntc, w=W), dict(desc, other_nthread=ntc), 'nthread'):
                 bad = True
                 break
             nt(('nthread', ntc))
@@ -161,7 +165,7 @@ def check(run):
             continue
         # 4. cross with itself equals auto
         run.ev()
-        if compare_tables(run, R0, run_power(ps, pos, box, conf, pos2=pos), desc, 'cross-equals-auto'):
+        if compare_tables(run, R0, run_power(ps, pos, box, conf, pos2=pos, w=W, w2=W), desc, 'cross-equals-auto'):
             continue
         nt('cross')
         # 4b. the very same array object passed as both fields, and the caller's positions afterwards
@@ -170,7 +174,7 @@ def check(run):
         with warnings.catch_warnings():
             warnings.simplefilter('ignore')
             kw = dict(conf['kw'])
-            Rs = ps.calc_power(p_same, box, nmesh=conf['nmesh'], paste=conf['paste'], compensated=conf['compensated'], interlaced=conf['interlaced'], nthread=conf['nthread'], dtype=conf['dtype'], pos2=p_same, **kw)
+            Rs = ps.calc_power(p_same, box, nmesh=conf['nmesh'], paste=conf['paste'], compensated=conf['compensated'], interlaced=conf['interlaced'], nthread=conf['nthread'], dtype=conf['dtype'], pos2=p_same, w=None if W is None else W.copy(), w2=None if W is None else W.copy(), **kw)
         if compare_tables(run, R0, Rs, dict(desc, pos2='same array object'), 'cross-equals-auto'):
             continue
         moved = np.abs(((p_same.astype(np.float64) - pos.astype(np.float64)) + box / 2) % box - box / 2).max() if len(pos) else 0.0
